@@ -80,34 +80,39 @@ func checkC07(c *Ctx) {
 		}
 	}
 	if f != nil {
-		var add, probe, guardCall, validate *ssa.Call
-		for _, ci := range callsIn(f, shortIs("AddRegistration")) {
-			add = ci.(*ssa.Call)
-		}
-		for _, ci := range callsIn(f, shortIs("PhantomIsLive")) {
-			probe = ci.(*ssa.Call)
-		}
-		for _, ci := range callsIn(f, shortIs("ParseOrResolveBlocklisted")) {
-			guardCall = ci.(*ssa.Call)
-		}
-		for _, ci := range callsIn(f, shortIs("ValidateRegistration")) {
-			validate = ci.(*ssa.Call)
-		}
-		if add == nil || probe == nil || guardCall == nil || validate == nil {
+		// the anchors, in ingestRegistration itself or in a helper it delegates a step to
+		addL, ok1 := findOneDeep(f, shortIs("AddRegistration"))
+		probeL, ok2 := findOneDeep(f, shortIs("PhantomIsLive"))
+		guardL, ok3 := findOneDeep(f, shortIs("ParseOrResolveBlocklisted"))
+		validateL, ok4 := findOneDeep(f, shortIs("ValidateRegistration"))
+		if !ok1 || !ok2 || !ok3 || !ok4 {
 			r.Unk("C07.1", "ingestRegistration: anchors", f.Pos(), fnName(f), "AddRegistration / PhantomIsLive / ParseOrResolveBlocklisted / ValidateRegistration not all found")
 		} else {
-			v := pathOf(validate)
+			add, probe := addL.site(), probeL.site()
+			probeCall := probeL.call
+			guardPath := guardL.toRoot(pathOf(guardL.call))
+			probePath := probeL.toRoot(pathOf(probeL.call))
+			guarded := func(_ *ssa.Function, in ssa.Instruction, atoms ...Atom) bool {
+				switch in {
+				case add:
+					return guardedDeep(addL, atoms...)
+				case probe:
+					return guardedDeep(probeL, atoms...)
+				}
+				return guardedM(f, in, atomMatcher(atoms...))
+			}
+			v := validateL.toRoot(pathOf(validateL.call))
 			r.Check(guarded(f, add, Atom{v + "#0", true}) && guarded(f, add, Atom{"(" + orderEq("nil", v+"#1") + ")", true}), "C07.1", "ingest: validated only after ValidateRegistration returned (true, nil)", add.Pos(), fnName(f), "dominated by ok && err == nil",
 				"a registration that failed field/transport/blocklist validation can still be validated and announced")
-			r.Check(guarded(f, add, Atom{"(" + orderEq(`""`, pathOf(guardCall)+"#0") + ")", false}), "C07.1", "ingest: validated only with a covert that passed the covert policy", add.Pos(), fnName(f), "dominated by covert != \"\"",
+			r.Check(guarded(f, add, Atom{"(" + orderEq(`""`, guardPath+"#0") + ")", false}), "C07.1", "ingest: validated only with a covert that passed the covert policy", add.Pos(), fnName(f), "dominated by covert != \"\"",
 				"a registration whose covert was rejected by the covert policy is validated")
 			// live phantom never validated: AddRegistration unreachable from the live==true edge
-			liveEdges := edgesEstablishing(f, atomMatcher(Atom{pathOf(probe) + "#0", true}))
+			liveEdges := edgesEstablishing(f, atomMatcher(Atom{probePath + "#0", true}))
 			okLive := len(liveEdges) > 0
 			for e := range liveEdges {
 				succ := f.Blocks[e.from].Succs[e.slot]
 				if len(succ.Instrs) > 0 {
-					if hit, _ := reachAt(f, succ, isInstr(add), nil, nil); hit || succ.Instrs[0] == ssa.Instruction(add) {
+					if hit, _ := reachAt(f, succ, isInstr(add), nil, nil); hit || succ.Instrs[0] == add {
 						okLive = false
 					}
 				}
@@ -144,12 +149,15 @@ func checkC07(c *Ctx) {
 			// ---- C07.2
 			g1 := guarded(f, probe, Atom{"reg.PreScanned()", false})
 			g2 := guarded(f, probe, Atom{"(" + orderEq("nil", "reg.PhantomIp.To4()") + ")", false})
-			g3 := guarded(f, probe, Atom{"(" + orderEq(`""`, pathOf(guardCall)+"#0") + ")", false})
+			g3 := guarded(f, probe, Atom{"(" + orderEq(`""`, guardPath+"#0") + ")", false})
 			r.Check(g1 && g2, "C07.2", "ingest: probe only for IPv4 phantoms that were not pre-scanned", probe.Pos(), fnName(f), "dominated by !PreScanned() && To4() != nil",
 				"a liveness probe is sent although none is required (pre-scanned by another station, or IPv6): needless active probing of phantom hosts")
 			r.Check(g3, "C07.2", "ingest: probe only after the covert check passed", probe.Pos(), fnName(f), "dominated by covert != \"\"", "phantoms are probed for registrations that are rejected anyway")
 			notReq := edgesEstablishing(f, atomMatcher(Atom{"reg.PreScanned()", true}, Atom{"(" + orderEq("nil", "reg.PhantomIp.To4()") + ")", true}))
 			bypass, w := reach(f, nil, isInstr(add), isInstr(probe), notReq)
+			if !mustPassDeep(probeL) {
+				bypass = true // the helper that holds the probe can return without sending it
+			}
 			if bypass {
 				r.Bad("C07.2", "ingest: AddRegistration reachable without the probe for a non-prescanned IPv4 phantom", add.Pos(), fnName(f),
 					"the liveness probe can be bypassed for a registration that requires it: a live host's address is used as a phantom", r.blockPath(f, w)...)
@@ -157,8 +165,8 @@ func checkC07(c *Ctx) {
 				r.OK("C07.2", "ingest: the probe is must-pass for non-prescanned IPv4 phantoms", add.Pos(), "no path to AddRegistration avoids it except PreScanned()/IPv6 edges")
 			}
 			// the probed address/port are the registration's phantom
-			pa := argsOf(&probe.Call)
-			r.Check(pathOf(pa[0]) == "reg.PhantomIp.String()" && pathOf(pa[1]) == "reg.PhantomPort", "C07.2", "ingest: the probe targets the registration's phantom address and port", probe.Pos(), fnName(f), pathOf(probe), "the liveness probe targets something other than this registration's phantom")
+			pa := argsOf(&probeCall.Call)
+			r.Check(len(pa) >= 2 && probeL.toRoot(pathOf(pa[0])) == "reg.PhantomIp.String()" && probeL.toRoot(pathOf(pa[1])) == "reg.PhantomPort", "C07.2", "ingest: the probe targets the registration's phantom address and port", probe.Pos(), fnName(f), probePath, "the liveness probe targets something other than this registration's phantom")
 
 			// ---- C07.6 sharing
 			r.Rule("C07.6", "sharing only for detector-sourced registrations with sharing enabled, after the probe, marked pre-scanned", 4)
